@@ -167,6 +167,7 @@ def evJson (e : Ev String) : Json := jarr (opJson e.op ++ (if e.failed then [Jso
 def stepJson (o : StepOut String JsonNumber V) (fs : FS String) : Json :=
   Json.mkObj [("evs", jarr (o.evs.map evJson)), ("writes", jpairs o.writes), ("raised", Json.bool o.raised),
     ("values", jpairs (o.ms.params.map (fun p => (p.name, p.value)))), ("writeDict", jpairs o.ms.writeDict),
+    ("hooks", jstrs o.ms.hooks),
     ("target", jbytes (fs "T")), ("tmp", jbytes (fs "T.tmp"))]
 
 def runHist (env : Env String JsonNumber V) : MState JsonNumber V → FS String → List (Act V × Option Fault) → List Json
